@@ -101,6 +101,7 @@ type Interp struct {
 	sum       *sumState
 	noSum     int
 	initDepth int
+	clock     int
 	wc        *workerCache
 	tmplMemo  map[any]any // template object -> instance in this path
 	instOf    map[any]any // instance in this path -> template object
@@ -226,6 +227,7 @@ func (it *Interp) assume(c *Term) {
 	if it.sum != nil {
 		panic(specAbort{})
 	}
+	it.ts.NoteAssumed(c)
 	it.solver.Assert(c)
 	it.pcLen++
 }
